@@ -114,6 +114,12 @@ def respond (t : JoinTable) (op : String) (args : List Bytes) : String :=
     (match Parser.buildPairs pairs with
      | none => "diag"
      | some ps => "ok " ++ toHexArg (Parser.replaceSuffixes content ps))
+  | "update.apply", [c, id, k, re] => exceptResp (Update.updateRegex c id k.length re)
+  | "update.read", [c, id, k] => exceptResp (Update.readCurrentRegex c id k.length)
+  | "ruleid.parse", [a] =>
+    (match Update.parseRuleId a with
+     | .ok r => "ok " ++ toHexArg r.id ++ " " ++ toHexArg r.fileName ++ " " ++ toHexArg (natToBytes r.chainOffset)
+     | .error e => faultResp e)
   | "gen.run", ue :: us :: un :: we :: ws :: wn :: input :: files =>
     exceptResp (Asm.generate (tableEngine t) (decodeFs files) ⟨ue, us, un, we, ws, wn⟩ Parser.idOrd Parser.idOrd input)
   | _, _ => "bad-op"
